@@ -52,4 +52,33 @@ def RowWise (f : List α → List β) : Prop := ∃ g : α → β, ∀ xs, f xs 
 def wrapItem (f : List α → List β) (bs : Nat) (ds : List α) (dflt : α) (dfltB : β) : Nat → α × β :=
   extraItem (fun i => ds.getD i dflt) (fun i => (rollout f bs ds).getD i dfltB)
 
+/-! ### the stateful view: items shared by reference
+
+`TensorDictDataset.data` is a Python list of dicts, and `ExtraKeyDataset(dataset, extra, key)` keeps a
+reference to that very list: `__getitem__ i` does `data = self.data[i]; data[key] = self.extra[i];
+return data`, i.e. it WRITES the key into the shared dict (overwriting whatever an earlier wrapper left
+there) and returns it.  `Store` is the list of dicts after an arbitrary history of reads. -/
+
+abbrev Dict (β : Type) := List (String × β)
+
+def Dict.get? (d : Dict β) (k : String) : Option β := (d.find? (fun p => p.1 == k)).map (·.2)
+
+/-- `data[key] = v` -/
+def Dict.set (d : Dict β) (k : String) (v : β) : Dict β := (k, v) :: d.filter (fun p => !(p.1 == k))
+
+abbrev Store (β : Type) := List (Dict β)
+
+/-- `ExtraKeyDataset.__getitem__ i` on the shared store: new store and the returned dict -/
+def readExtra (st : Store β) (key : String) (extra : Nat → β) (i : Nat) : Store β × Dict β :=
+  let d := (st.getD i []).set key (extra i)
+  (st.set i d, d)
+
+/-- reading a whole index list through one wrapper, threading the store -/
+def readMany (st : Store β) (key : String) (extra : Nat → β) : List Nat → Store β × List (Dict β)
+  | [] => (st, [])
+  | i :: is =>
+    let (st1, d) := readExtra st key extra i
+    let (st2, ds) := readMany st1 key extra is
+    (st2, d :: ds)
+
 end Rl4co.Ops
